@@ -4,8 +4,10 @@ import (
 	"fmt"
 	"math/rand"
 	"strings"
+	"sync"
 	"testing"
 
+	"github.com/tikv/pd/pkg/mock/mockcluster"
 	"github.com/tikv/pd/server/core"
 	"github.com/tikv/pd/server/schedule"
 	"github.com/tikv/pd/server/schedule/operator"
@@ -19,7 +21,7 @@ import (
 
 // Call is one call on the region scatterer. Regions are indices into World.Regions.
 type Call struct {
-	Kind    string `json:"kind"`              // one | byID | byRange
+	Kind    string `json:"kind"`              // one | byID | byRange | conc (Regions scattered by one goroutine each, joined)
 	Region  int    `json:"region"`            // one: the region; byRange: the first region of the range
 	Regions []int  `json:"regions,omitempty"` // byID
 	Span    int    `json:"span,omitempty"`    // byRange: number of adjacent regions
@@ -30,6 +32,18 @@ type Call struct {
 	Loose bool `json:"loose,omitempty"`
 	// Unknown (byID): also ask for a region id that does not exist.
 	Unknown bool `json:"unknown,omitempty"`
+	// Nest (one): a complete Scatter of ANOTHER region is served in the middle of this one, at the
+	// Index-th call of cluster.GetStores / GetStore the outer Scatter makes (what a concurrent request
+	// does, as a pure function of the case).
+	Nest *Nest `json:"nest,omitempty"`
+}
+
+// Nest is a deterministic interleaving point.
+type Nest struct {
+	Func   string `json:"func"` // GetStores | GetStore
+	Index  int    `json:"index"`
+	Region int    `json:"region"`
+	Group  int    `json:"group"`
 }
 
 // ScatterCase is a scatter history on one RegionScatterer.
@@ -64,9 +78,24 @@ func genScatterCase(t *rapid.T) ScatterCase {
 	for i := 0; i < nCalls; i++ {
 		call := Call{Group: simkit.IntU(t, 0, nGroups-1, "group")}
 		switch k := simkit.IntU(t, 0, 99, "callKind"); {
-		case k < 80:
+		case k < 72:
 			call.Kind = "one"
 			call.Region = pickRegion("region")
+			if simkit.Pct(t, 30, "nested") {
+				n := &Nest{Func: "GetStores", Region: pickRegion("nestRegion"), Group: simkit.IntU(t, 0, nGroups-1, "nestGroup")}
+				if simkit.Pct(t, 65, "nestAtGetStores") {
+					n.Index = simkit.IntU(t, 0, 7, "nestIndex")
+				} else {
+					n.Func, n.Index = "GetStore", simkit.IntU(t, 0, 40, "nestIndexStore")
+				}
+				call.Nest = n
+			}
+		case k < 80:
+			call.Kind = "conc"
+			n := simkit.IntU(t, 2, 6, "nConc")
+			for j := 0; j < n; j++ {
+				call.Regions = append(call.Regions, pickRegion("concRegion"))
+			}
 		case k < 92:
 			call.Kind = "byID"
 			n := simkit.IntU(t, 1, 6, "nIDs")
@@ -93,6 +122,36 @@ type scatterStats struct {
 	perGroup                                            map[int]int
 	collapse, forced, handBack                          bool
 	byID, byRange, unknownReported                      bool
+	nested, nestMissed, conc, serialised                int
+}
+
+// hookCluster is the cluster the scatterer works on: the mock cluster, plus a
+// one-shot action at the n-th call of GetStores or GetStore (deterministic
+// interleaving of a second request).
+type hookCluster struct {
+	*mockcluster.Cluster
+	fn     string
+	at, n  int
+	action func()
+}
+
+func (h *hookCluster) tick(fn string) {
+	if h.action == nil || h.fn != fn {
+		return
+	}
+	if h.n == h.at {
+		a := h.action
+		h.action = nil
+		a()
+		return
+	}
+	h.n++
+}
+
+func (h *hookCluster) GetStores() []*core.StoreInfo { h.tick("GetStores"); return h.Cluster.GetStores() }
+func (h *hookCluster) GetStore(id uint64) *core.StoreInfo {
+	h.tick("GetStore")
+	return h.Cluster.GetStore(id)
 }
 
 func runScatterCase(c ScatterCase) (vkit.Info, error) {
@@ -133,6 +192,13 @@ func runScatterCase(c ScatterCase) (vkit.Info, error) {
 	info.ClassIf(first.byID, "ScatterRegionsByID")
 	info.ClassIf(first.byRange, "ScatterRegionsByRange")
 	info.ClassIf(first.unknownReported, "unknown-region-reported")
+	info.ClassIf(first.nested > 0, "nested-scatter-inside-scatter")
+	info.ClassIf(first.nestMissed > 0, "nest-point-not-reached")
+	info.ClassIf(first.conc > 0, "concurrent-scatter-goroutines")
+	if first.serialised > 0 {
+		info.Exclude(keyEngineMap)
+		info.Class("excluded:special-engine-region-serialised")
+	}
 	info.ClassIf(len(first.perGroup) >= 2, "groups>=2")
 	info.ClassIf(len(c.Calls) >= 13, "calls>=13")
 	info.ClassIf(c.Cluster.PlacementRules, "placement-rules")
@@ -170,7 +236,9 @@ func runScatterOnce(c *ScatterCase, x *opCtx, rep int) (*scatterStats, error) {
 	}
 	defer l.cancel()
 	st := &scatterStats{perGroup: map[int]int{}}
-	sc := schedule.NewRegionScatterer(l.ctx, l.mc)
+	hc := &hookCluster{Cluster: l.mc}
+	sc := schedule.NewRegionScatterer(l.ctx, hc)
+	engineMapKnown := vkit.Known(keyEngineMap)
 	nr := len(c.Regions)
 	rid := func(i int) uint64 { return c.Regions[((i%nr)+nr)%nr].ID }
 
@@ -215,9 +283,120 @@ func runScatterOnce(c *ScatterCase, x *opCtx, rep int) (*scatterStats, error) {
 	for ci, call := range c.Calls {
 		group := groupNames[call.Group%len(groupNames)]
 		switch call.Kind {
+		case "conc":
+			// one goroutine per region on the same scatterer, joined before anything is judged
+			asked := map[uint64]bool{}
+			var par, ser []*core.RegionInfo
+			for _, i := range call.Regions {
+				id := rid(i)
+				r := l.mc.GetRegion(id)
+				if asked[id] || !scatterable(l, r) {
+					continue // (a refused Scatter writes the mock cluster's unsynchronised suspect-region map)
+				}
+				asked[id] = true
+				special := false
+				for _, p := range r.GetPeers() {
+					if sp := c.Cluster.Store(p.GetStoreId()); sp != nil && sp.Label(engineKey) != "" {
+						special = true
+					}
+				}
+				if special && engineMapKnown {
+					ser = append(ser, r) // known: the scatterer's engine-context map is not synchronised
+				} else {
+					par = append(par, r)
+				}
+			}
+			type res struct {
+				op  *operator.Operator
+				err error
+				pan interface{}
+			}
+			out := make([]res, len(ser)+len(par))
+			for i, r := range ser {
+				out[i].op, out[i].err = sc.Scatter(r, group)
+				st.serialised++
+			}
+			if len(par) > 0 {
+				st.conc++
+			}
+			var wg sync.WaitGroup
+			start := make(chan struct{})
+			for i, r := range par {
+				wg.Add(1)
+				go func(i int, r *core.RegionInfo) {
+					defer wg.Done()
+					defer func() { out[i].pan = recover() }()
+					<-start
+					out[i].op, out[i].err = sc.Scatter(r, group)
+				}(len(ser)+i, r)
+			}
+			close(start)
+			wg.Wait()
+			done := map[uint64]bool{}
+			for _, o := range out {
+				switch {
+				case o.pan != nil:
+					return nil, fmt.Errorf("call %d: a concurrent Scatter panicked: %v", ci, o.pan)
+				case o.err != nil:
+					st.refused++
+				case o.op == nil:
+					st.noop++
+					st.perGroup[call.Group]++
+				default:
+					st.perGroup[call.Group]++
+					if err := apply(ci, o.op, asked, done); err != nil {
+						return nil, fmt.Errorf("(%d concurrent Scatter calls on one scatterer) %v", len(par), err)
+					}
+				}
+			}
 		case "one":
 			id := rid(call.Region)
 			region := l.mc.GetRegion(id)
+			var nestedOp *operator.Operator
+			nestedID := uint64(0)
+			if n := call.Nest; n != nil && rid(n.Region) != id {
+				nestedID = rid(n.Region)
+				inner := l.mc.GetRegion(nestedID)
+				ngroup := groupNames[n.Group%len(groupNames)]
+				fired := false
+				hc.fn, hc.at, hc.n = n.Func, n.Index, 0
+				hc.action = func() {
+					fired = true
+					op, err := sc.Scatter(inner, ngroup)
+					if err == nil {
+						st.perGroup[n.Group]++
+						nestedOp = op
+					}
+				}
+				defer func() { hc.action = nil }()
+				op, err := sc.Scatter(region, group)
+				hc.action = nil
+				if fired {
+					st.nested++
+				} else {
+					st.nestMissed++
+				}
+				if nestedOp != nil {
+					if e := apply(ci, nestedOp, map[uint64]bool{nestedID: true}, map[uint64]bool{}); e != nil {
+						return nil, fmt.Errorf("(Scatter of region %d served inside the Scatter of region %d at %s call %d) %v", nestedID, id, n.Func, n.Index, e)
+					}
+				}
+				if err == nil && op != nil {
+					st.perGroup[call.Group]++
+					if e := apply(ci, op, map[uint64]bool{id: true}, map[uint64]bool{}); e != nil {
+						if fired {
+							return nil, fmt.Errorf("(a Scatter of region %d was served inside this call at %s call %d) %v", nestedID, n.Func, n.Index, e)
+						}
+						return nil, e
+					}
+				} else if err != nil {
+					st.refused++
+				} else {
+					st.noop++
+					st.perGroup[call.Group]++
+				}
+				continue
+			}
 			op, err := sc.Scatter(region, group)
 			switch {
 			case err != nil:
